@@ -99,10 +99,10 @@ CLAIMED['C14'] = dict(
     technique="Coq proof by structural induction over the units between two passes (decision model) + rotation lemmas over R; exhaustive differential run for short sequences",
     text=("Theorems: with automatic rotation on, for any units between two consecutive passes containing at most one rotator, "
           "explicit rotators plus the entry rotation of the second pass make exactly one turn (by the rotator if present, else by the "
-          "pass); explicit settings False/0/True/angle are applied exactly; the global switch off disables entry rotation; the rule "
+          "pass); explicit settings False/0/True/angle are applied exactly; the global switch off disables entry rotation; the angle stated on an explicit rotator does not enter the decision (a rotator stated as 0 is a rotator); the rule "
           "table regenerated from rotator/hookimpls.py is total and yields only 0/45/90/180; rotation preserves distances, area, "
           "perimeter and composes additively. The decision model is compared with roll_pass.rotation for every arrangement of up to "
-          "4 units (9120) and random longer ones; solved sequences count the turns actually made. Edit histories on one sequence object (rotation setting changed, units inserted/prepended/dropped between solves) are checked geometrically: the profile entering each pass is the predecessor's section turned exactly once by the angle the current arrangement calls for."),
+          "4 units (9 kinds incl. rotators stated as 90 and as 0) and random longer ones, two-roll and three-roll passes and further stated angles directly; solved sequences count the turns actually made. Edit histories on one sequence object (rotation setting changed, units inserted/prepended/dropped between solves) are checked geometrically: the profile entering each pass is the predecessor's section turned exactly once by the angle the current arrangement calls for."),
     note=("Trusted: Coq kernel; Reals axioms for the geometry theorems; decision model coq/lib/Rotation.v tied by the correspondence run; "
           "translator T-A for the rule table; shapely.affinity.rotate sampled against the closed formula; nested sequences out of scope."),
     ref="DESIGN.md section 4 C14")
